@@ -70,7 +70,7 @@ def gen_plan(seed, i, tier):
 def jobs(tier, seed, pool):
     out = [{'plan': gen_plan(seed, i, tier), 'meta': {}} for i in range(RUNS[tier])]
     # sweep: every registered block type x version, copied once (copy-construct or assign) and compared byte for byte
-    for idx, (v, t, s) in enumerate(synth.population(1 if tier == 'quick' else 6, seed0=seed)):
+    for idx, (v, t, s) in enumerate(synth.population(3 if tier == 'quick' else 8, seed0=seed)):
         steps = [{'op': 'Copy', 'from': 0, 'to': 1, 'how': 'ctor' if idx % 3 else 'assign_empty'}, {'op': 'Destroy', 'slot': idx % 2}]
         out.append({'plan': {'property': PROP, 'profile': 'copy', 'init': synth.synth_init(v, t, s, k=3), 'steps': steps, 'timeout_s': 20}, 'meta': {}})
     return out
